@@ -23,6 +23,9 @@ CHECKS = {
  "C05": ("exploration", "model-based (stateful) property testing: generated operation histories interpreted against a Vec<bool> / (width, Vec<u64>) model with full state comparison after every step",
          "Every step of every generated history over RawVector and IntVector is followed by a comparison of length, every backing word (so stale bits beyond the end are visible), count_ones, reads, and equality + byte-identical serialization with vectors rebuilt from the model by two other routes.",
          "Trusts the bit-by-bit model; vectors stay small (<= ~25k bits / 300 items) so that complete comparison after each step is affordable; capacity is not asserted.", "DESIGN.md §3 C05"),
+ "C07": ("exploration", "differential testing against an independent codec written only from SERIALIZATION.md (decoder + encoder), both directions, plus byte identity where the document leaves no choice",
+         "The library's bytes for generated structures of every documented type are decoded by the harness's own codec and must give the generator's model content while satisfying the document's requirements; the codec's own encodings (supports absent, any admissible sparse low width, any sufficient sample width) must load and answer every query per the reference models; codec bytes must equal library bytes with supports stripped wherever the document leaves no choice, which exposes changes made symmetrically to serialize and load.",
+         "Trusts the harness codec as a faithful reading of the document; support structures are opaque; sparse w=64 and multiset loading are excluded (see assumptions).", "DESIGN.md §3 C07"),
  "C06": ("exploration", "round-trip property testing over values of every Serialize type (type-erased), concatenated streams, short-read readers",
          "1..6 generated values of every serializable type (incl. all 8 support subsets, nested options, huge sparse universes, multisets) are written back to back; sizes must be exact, header+body = serialize, and sequential loading through a reader that returns short reads must give equal values that answer a fixed query plan identically and must consume exactly each value's bytes; file variants agree.",
          "Equality is the library's own PartialEq plus a fixed query-plan digest; Option nesting to depth 2.", "DESIGN.md §3 C06"),
